@@ -775,6 +775,70 @@ func runC20(w *World, r *Report) {
 		}
 	}
 
+	r.Rule("C20.inference-runs-to-a-fixpoint", "updateToValidateMap repeats its scan while a scan changed something: the flag its outer loop is left on can become true inside the scan (a scan that types a pass-through node may make edges scanned earlier decidable — with the flag stuck at false how far types propagate depends on Go's map iteration order, and the same construction sometimes compiles and sometimes fails with 'types cannot be inferred')", 1)
+	{
+		utv := w.Fn("compose", "graph.updateToValidateMap")
+		var outer *loopInfo
+		for _, li := range naturalLoops(utv) {
+			li := li
+			if outer == nil || len(li.body) > len(outer.body) {
+				outer = &li
+			}
+		}
+		if outer == nil {
+			undecidedf("C20.inference-runs-to-a-fixpoint: updateToValidateMap has no loop")
+		}
+		// the exit test of the outer loop: an If on a bool (or its negation) one of whose arms leaves the loop
+		found, canBeTrue := false, false
+		for b := range outer.body {
+			if len(b.Instrs) == 0 {
+				continue
+			}
+			iff, ok := b.Instrs[len(b.Instrs)-1].(*ssa.If)
+			if !ok || (outer.body[b.Succs[0]] && outer.body[b.Succs[1]]) {
+				continue
+			}
+			v := iff.Cond
+			if u, ok := v.(*ssa.UnOp); ok && u.Op == token.NOT {
+				v = u.X
+			}
+			if bt, ok := v.Type().Underlying().(*types.Basic); !ok || bt.Kind() != types.Bool {
+				continue
+			}
+			_, isPhi := v.(*ssa.Phi)
+			_, isConst := v.(*ssa.Const)
+			if !isPhi && !isConst {
+				continue
+			}
+			found = true
+			seen := map[ssa.Value]bool{}
+			var walk func(v ssa.Value)
+			walk = func(v ssa.Value) {
+				if seen[v] {
+					return
+				}
+				seen[v] = true
+				switch x := v.(type) {
+				case *ssa.Phi:
+					for _, e := range x.Edges {
+						walk(e)
+					}
+				case *ssa.Const:
+					if bv, ok := constBool(x); ok && bv {
+						canBeTrue = true
+					}
+				default:
+					canBeTrue = true // computed: not stuck at a constant
+				}
+			}
+			walk(v)
+		}
+		if !found {
+			undecidedf("C20.inference-runs-to-a-fixpoint: no boolean exit test found on the outer loop of updateToValidateMap")
+		}
+		r.Check(canBeTrue, "C20.inference-runs-to-a-fixpoint", "updateToValidateMap: the repeat flag can be set", utv.Pos(), "the value the outer loop is left on takes `true` on some edge", "the flag the outer loop tests is false on every edge: the repeat-until-stable loop always stops after one scan of toValidateMap, so three pass-through nodes linked to each other before any of them touches a typed node are typed or not depending on map iteration order — AddEdge(p1,p2), AddEdge(p2,p3), AddEdge(p3,END), AddEdge(START,p1), Compile fails about six times in ten")
+	}
+
 	r.Rule("C20.workflow-nil-branch", "Workflow.compile reads through a deferred branch (its end nodes, promoted through the embedded *GraphBranch) only behind a nil test of that pointer: AddBranch(from, nil) is an error of Compile like Graph.AddBranch(nil) is an error, never a nil dereference", 1)
 	{
 		wfc := w.Fn("compose", "Workflow.compile")
